@@ -329,6 +329,26 @@ func (d *Discharger) Discharge(w *World, o *Obligation) {
 	if len(errs) > 0 {
 		o.Model = "solver errors: " + strings.Join(errs, " | ")
 	}
+	// undecided: look for a candidate counterexample in the quantifier-free part of the query (axioms and
+	// quantified hypotheses dropped). Such a model is only a candidate; it counts when the replay confirms it.
+	if _, ok := replaySpecs[o.Fn]; ok && o.Kind != "vacuity" {
+		var keep []string
+		for _, l := range strings.Split(qtext, "\n") {
+			if strings.HasPrefix(l, "(assert") && (strings.Contains(l, "(forall ") || strings.Contains(l, "(exists ")) && !strings.HasPrefix(l, "(assert (not ") {
+				continue
+			}
+			keep = append(keep, l)
+		}
+		mq := strings.Join(keep, "\n")
+		mf := filepath.Join(d.tmp, uniq+".cand.smt2")
+		os.WriteFile(mf, []byte(mq), 0o644)
+		res, _, _ := runSolver(context.Background(), solvers[0], mf, 10)
+		os.Remove(mf)
+		if res == "sat" {
+			o.ModelQuery = strings.TrimSuffix(strings.TrimSpace(mq), "(check-sat)")
+			o.Solver = "z3-new"
+		}
+	}
 }
 
 func firstLines(s string, n int) string {
